@@ -44,5 +44,12 @@ CHECKS.update({
    technique=MB + "TLC-generated terms driven through Display + tokenizer + parser, TLC trace validation of the recorded round trips"),
 })
 
+CHECKS.update({
+ "C15": dict(level="model_checking", design_ref="DESIGN.md section 4, C15",
+   text="GramListing states what an excerpt must show; TLC enumerates every small text (multi-byte characters, blanks, several lines) with every range on character boundaries and the prescribed lines / must-mark / may-mark columns, and the real listing() output is read back and compared. Diagnostics' ranges are checked on planted faults with an unambiguous offender, planted on TLC-enumerated sentences (scoping) and TLC-enumerated well-typed programs plus the corpus (type faults), with non-ASCII names before the fault, preceding lines and multi-line subexpressions.",
+   note="Trusted: GramListing as the reading of the excerpt clause; ranges of diagnostics are read back from the coloured rendering; the offender's span comes from the token positions TLC prescribes (scoping) or from the span-recording unparser of the harness (type faults). Bounded: texts 3 lines x 2 characters (quick); trees <= 5 nodes; programs <= 5 nodes.",
+   technique=MB + "bounded-exhaustive replay of TLC-generated (text, range) pairs into error.rs listing + planted-fault replay on TLC-enumerated sentences and programs"),
+})
+
 PENDING = "check not built yet in this session (planned in DESIGN.md section 4); will be claimed once its TLA+ model and conformance harness exist"
 NOT_APPLICABLE = {p: PENDING for p in ["C%02d" % i for i in range(1, 20)]}
